@@ -135,7 +135,7 @@ class ScrapesIO(HasIOPreview, ABC):
                 # So don't let them choose bad channel names
                 raise ValueError(
                     f"Trying to build input preview for {cls.__name__}, encountered an "
-                    f"argument name that conflicts with __init__: {label}. Please "
+                    f"argument name that conflicts with __init__ or run: {label}. Please "
                     f"choose a name _not_ among {cls._get_init_keywords()}"
                 )
 
@@ -218,7 +218,14 @@ class ScrapesIO(HasIOPreview, ABC):
     @classmethod
     @lru_cache(maxsize=1)
     def _get_init_keywords(cls):
-        return list(inspect.signature(cls.__init__).parameters.keys())
+        keywords = list(inspect.signature(cls.__init__).parameters.keys())
+        # Input is also passed by keyword at run time, so the run flags are reserved too
+        run = getattr(cls, "run", None)
+        if callable(run):
+            keywords += [
+                k for k in inspect.signature(run).parameters if k not in keywords
+            ]
+        return keywords
 
     @classmethod
     @lru_cache(maxsize=1)
